@@ -225,6 +225,63 @@ def run(prog: Program) -> Results:
     from sa.rules import c04
     sub = c04.run(prog)
     st = sub.rules.get("R-C04-3")
+    # ---------------------------------------------------------------- R-C09-6 depth = length of the leading run of `@`
+    r6 = res.rule("R-C09-6", "the selector depth is the length of the *leading* run of `@` and the remaining path is the input "
+                  "without exactly that prefix: an `@` inside a quoted name is not a selector", floor=1)
+    sp = prog.func("_split_scope_npath")
+    res.analysed_functions.add(sp.key)
+    r6.instances += 1
+    src = sp.params()[0]
+    rets = [n for n in walk_no_nested(sp.node) if isinstance(n, ast.Return) and isinstance(n.value, ast.Tuple) and len(n.value.elts) == 2]
+    verdict, why = None, ""
+
+    def defs_of(name):
+        return [n for n in ast.walk(sp.node) if isinstance(n, (ast.Assign, ast.AugAssign)) and
+                norm(n.targets[0] if isinstance(n, ast.Assign) else n.target) == name]
+
+    whole_count = [c for c in ast.walk(sp.node) if isinstance(c, ast.Call) and isinstance(c.func, ast.Attribute) and c.func.attr == "count"
+                   and norm(c.func.value) == src]
+    if whole_count:
+        verdict, why = False, f"`{norm(whole_count[0])}` counts every `@` of the path, also those inside quoted names"
+    elif len(rets) == 1:
+        d_expr, r_expr = rets[0].value.elts
+        d_name = d_expr.id if isinstance(d_expr, ast.Name) else None
+        r_defs = defs_of(norm(r_expr)) if isinstance(r_expr, ast.Name) else []
+        r_val = r_defs[0].value if len(r_defs) == 1 and isinstance(r_defs[0], ast.Assign) else r_expr
+        # idiom 1: counting loop that breaks at the first other character + slice by the counter
+        loops = [l for l in walk_no_nested(sp.node) if isinstance(l, ast.For) and norm(l.iter) == src]
+        if d_name and len(loops) == 1:
+            lp = loops[0]
+            ch = norm(lp.target)
+            first = lp.body[0] if lp.body else None
+            breaks_first = isinstance(first, ast.If) and norm(first.test) in (f"{ch} != '@'", f"not {ch} == '@'") and \
+                any(isinstance(x, ast.Break) for x in first.body) and not first.orelse
+            incs = [n for n in lp.body[1:] if isinstance(n, ast.AugAssign) and norm(n.target) == d_name and isinstance(n.op, ast.Add) and norm(n.value) == "1"]
+            alt = isinstance(first, ast.If) and norm(first.test) == f"{ch} == '@'" and any(
+                isinstance(n, ast.AugAssign) and norm(n.target) == d_name for n in first.body) and any(isinstance(x, ast.Break) for x in first.orelse)
+            zero = [n for n in defs_of(d_name) if isinstance(n, ast.Assign) and norm(n.value) == "0"]
+            other = [n for n in defs_of(d_name) if n not in zero and n not in incs and not (alt and n in ast.walk(first))]
+            sliced = norm(r_val) == f"{src}[{d_name}:]"
+            if ((breaks_first and len(incs) == 1) or alt) and len(zero) == 1 and not other and sliced:
+                verdict = True
+            elif (breaks_first and incs) or alt:
+                verdict, why = False, f"the remainder `{norm(r_val)}` is not `{src}[{d_name}:]` or the counter has other definitions"
+        # idiom 2: strip + length difference
+        if verdict is None and norm(r_val) == f"{src}.lstrip('@')":
+            dd = defs_of(d_name) if d_name else []
+            dv = dd[0].value if len(dd) == 1 and isinstance(dd[0], ast.Assign) else d_expr
+            rn = norm(r_expr)
+            if norm(dv) in (f"len({src}) - len({rn})", f"len({src}) - len({src}.lstrip('@'))"):
+                verdict = True
+            else:
+                verdict, why = False, f"the depth `{norm(dv)}` is not the length of the stripped prefix"
+    if verdict is None:
+        res.unclass("_split_scope_npath: neither the counting-loop nor the strip-and-difference idiom was recognised")
+    else:
+        r6.ob(verdict, {"function": sp.key, "returns": norm(rets[0].value) if rets else None})
+        if not verdict:
+            res.add("R-C09-6", (sp.key, "depth is not the leading run of @"), sp.loc(rets[0] if rets else None),
+                    f"_split_scope_npath: {why}: `@\"user@host\"` addresses the second-innermost layer instead of the innermost one")
     r5 = res.rule("R-C09-5", "scope-layer snapshots and write-backs are field-wise faithful and complete: layers are never mixed "
                   "(shared with R-C04-3)", floor=5)
     if st:
